@@ -149,3 +149,32 @@ Definition closure_exact (fac imp : feature_table) (derive_feats : list string) 
   && same_set_str (closure imp (facade_requests fac "full")) derive_feats
   && same_set_str (closure imp (facade_requests fac "std")) []
   && same_set_str (closure imp (facade_requests fac "default")) [].
+
+(* ------------------------------------------------------------------ monotone fragment, exclusivity, exposure *)
+
+(** formulas without `not(..)`: enabling more features never switches such a guard off *)
+Fixpoint positive (f : formula) : bool :=
+  match f with
+  | FVar _ | FTrue => true
+  | FAny l | FAll l => forallb positive l
+  | FNot _ => false
+  end.
+
+(** the feature set with exactly one feature *)
+Definition single (x : N) : valuation := fun n => N.eqb x n.
+
+(** the feature set given by a list *)
+Definition of_list (xs : list N) : valuation := fun n => existsb (N.eqb n) xs.
+
+(** two guards can never hold together (decided by the complete case split) *)
+Definition exclusive_dec (a b : formula) : bool := implies_dec (FAll [a; b]) (FAny []).
+
+Fixpoint pairwise_exclusive (l : list formula) : bool :=
+  match l with
+  | [] => true
+  | a :: r => forallb (exclusive_dec a) r && pairwise_exclusive r
+  end.
+
+(** the features (variables) under which a name with export guard [g] is visible, out of a universe [fs]:
+    used to state "what is visible under S is the union over the features in S" *)
+Definition visible_under (g : formula) (S : list N) : bool := eval (of_list S) g.
